@@ -360,7 +360,15 @@ pub fn gen_sort_case(rng: &mut Rng, integer_key: bool) -> SortCase {
                 1 => vec![2, 2],
                 _ => vec![],
             };
-            let c = ColSpec { name: format!("c{}", i), st, row_shape };
+            // payload names in no particular (in particular not alphabetical) order relative to each other and to "key"
+            const NAMES: [&str; 10] = ["val", "row", "a", "zz", "B", "x1", "_p", "kez", "m", "Key"];
+            let name = loop {
+                let cand = if rng.chance(1, 4) { format!("c{}", i) } else { NAMES[rng.usize_below(NAMES.len())].to_string() };
+                if !cols.iter().any(|c: &ColSpec| c.name == cand) {
+                    break cand;
+                }
+            };
+            let c = ColSpec { name, st, row_shape };
             let d: Vec<u128> = (0..n * c.row_elems()).map(|_| rng.next_u128() & st_mask(st)).collect();
             cols.push(c);
             data.push(d);
